@@ -10,7 +10,8 @@
    Self-contained on purpose (it does not import Registry.v / Cache.v).
    Proof-free and executable; the proofs are in proofs/Loop_proofs.v.
 
-   Resources (cache keys) are natural numbers.  All the module-level dicts are
+   Resources (registry.Resource = kind x name) are natural numbers; the harness
+   maps key i to (kind i mod 2, name r<i div 2>), so two kinds share every name.  All the module-level dicts are
    total functions [nat -> ...] (absent = None / empty set), queue objects and
    tasks live in heaps indexed by creation order.
 
